@@ -276,6 +276,12 @@ func runVariable(c *mon.Case, nw *namesWorld) {
 		return
 	}
 	ic.res = res
+	if res.Name != "variable" && useEnv {
+		// an environment variable is a string, so the expression can also be
+		// taken as the (evaluated) seed of an argument
+		c.Count("variable_handled_as_argument", 1)
+		return
+	}
 	if res.Name != "variable" {
 		// e.g. `echo $x` typed after `echo >`: still a variable; any other
 		// context name means the variable completer did not handle it.
